@@ -170,6 +170,18 @@ def check_mixed(ctx, op, l, r, tv):
         text = "ok " + tv.render_model(m)
     else:
         text = "err " + o[1]
+        want_kind = RESULT_KIND.get((op, l[0], r[0]))
+        if want_kind in ("btTd", "btDt") and op in SIGN:
+            # a refusal is only right when the exact result does not fit the result type: anything that fits has a value
+            if l[0].endswith("Dt") and r[0].endswith("Dt"):
+                exact = tv.seconds_of(*l) - tv.seconds_of(*r)
+            elif r[0].endswith("Dt") and op == "add":
+                exact = tv.seconds_of(*l) + tv.seconds_of(*r)
+            else:
+                exact = tv.seconds_of(*l) + SIGN[op] * tv.seconds_of(*r)
+            ticks = (exact - (695055 * 86400 if want_kind == "btDt" else 0)) * T64
+            if I128_MIN + 1 <= ticks <= I128_MAX - 1 or (ticks.denominator == 1 and I128_MIN <= ticks <= I128_MAX):
+                ctx.violation(op=op, left=l, right=r, observed=show(o), required=f"a {want_kind} value: the exact result ({float(ticks):.6g} ticks) is inside the 128-bit range")
     if op in ("lt", "eq", "gt"):
         rs = {}
         for name in ("lt", "eq", "gt"):
@@ -302,6 +314,42 @@ def run(ctx):
             ctx.case(("mixed", op, l, r))
             if got:
                 reqs.append(got)
+    # comparisons of a bintime value with the hightime / datetime value next to it: exactly its conversion (the value truncated to
+    # whole yoctoseconds / microseconds), one unit below, one unit above - where <, == and > must still be one consistent answer
+    for _ in range(40 if ctx.quick else 2000):
+        a = rng.choice([1, 3, T64 // 3, rng.randrange(1, T64), rng.randint(-(1 << 80), 1 << 80) | 1, -1, -(T64 // 7)])
+        for kind, scale in (("htTd", 10**24), ("dtTd", 10**6)):
+            conv = (a * scale) >> 64                    # floor: what bintime -> hightime / datetime conversion yields
+            for d in (-1, 0, 1):
+                for op in ("lt", "eq", "gt"):
+                    for pair in ((("btTd", a), (kind, conv + d)), ((kind, conv + d), ("btTd", a))):
+                        got = check_mixed(ctx, op, pair[0], pair[1], tv)
+                        ctx.case(("mixed-neighbour", op, pair))
+                        if got:
+                            reqs.append(got)
+    # mixed sums and differences whose exact result lies on, just inside and just outside the ends of the 128-bit range
+    for (op, lk, rk), want_kind in sorted(RESULT_KIND.items()):
+        if want_kind != "btTd" or op not in SIGN or "Dt" in lk + rk:
+            continue
+        small_kind, bt_left = (rk, True) if lk == "btTd" else (lk, False)
+        for _ in range(6 if ctx.quick else 200):
+            k = rng.choice([1, -1, 2, -3, 17, -86400, 3600])                       # whole seconds of the datetime / hightime operand
+            small = (small_kind, k * (10**6 if small_kind == "dtTd" else 10**24))
+            for target in (I128_MIN, I128_MIN + 1, I128_MAX, I128_MAX - 1, I128_MIN - 1, I128_MAX + 1, I128_MIN + T64, I128_MAX - T64 + 1):
+                # solve  l op r = target  for the bintime operand
+                if bt_left:
+                    b = target - SIGN[op] * k * T64
+                    pair = (("btTd", b), small)
+                else:
+                    b = (target - k * T64) * SIGN[op]
+                    pair = (small, ("btTd", b))
+                if not (I128_MIN <= b <= I128_MAX):
+                    continue
+                got = check_mixed(ctx, op, pair[0], pair[1], tv)
+                ctx.case(("mixed-edge", op, pair))
+                ctx.count("mixed-edge", "inside" if I128_MIN <= target <= I128_MAX else "outside")
+                if got:
+                    reqs.append(got)
     res = ctx.model([q for q, _ in reqs])
     if res is not None:
         for (q, want), got in zip(reqs, res):
